@@ -308,4 +308,28 @@ example : handle intText dsA (cs!"/d.dods") (cs!"a[1:20]")
         bytesStr [0, 0, 0, 2, 0, 0, 0, 2, 0, 0, 0, 6, 0, 0, 0, 7])) := by decide +kernel
 example : validSl 3 ⟨some 1, some 21, some 1⟩ = true ∧ validSl 3 ⟨some 3, some 4, some 1⟩ = false := by decide
 
+/-- two datasets of one process that share every name and id (`d`, `s`, `s.i`) and differ in the type of
+    the column and in the number of records, asked alternately -/
+def procAB : Proc := ⟨[
+  (cs!"h0", ⟨cs!"d", [.seq cs!"s" [(cs!"i", cs!"Int32")] [[5], [6]]]⟩),
+  (cs!"h1", ⟨cs!"d", [.seq cs!"s" [(cs!"i", cs!"String")] [[.str cs!"ab"]]]⟩)]⟩
+
+example : ∀ h ∈ procAB.handlers, h.2.WF := by
+  intro h hh
+  simp only [procAB, List.mem_cons, List.mem_nil_iff, or_false] at hh
+  rcases hh with rfl | rfl <;> intro v hv <;> simp at hv <;> subst hv <;> intro r hr <;> simp at hr
+  · rcases hr with rfl | rfl <;> rfl
+  · subst hr; rfl
+
+example : run intText procAB [⟨cs!"h0", cs!"/d.dods", cs!"s.i"⟩, ⟨cs!"h1", cs!"/d.dods", cs!"s.i"⟩,
+                              ⟨cs!"h0", cs!"/d.ascii", cs!"s.i&s.i>5"⟩, ⟨cs!"h2", cs!"/d.dds", []⟩, ⟨cs!"h1", cs!"/d.dods", cs!"s.j"⟩]
+    = [some (.ok .dods (.complete (cs!"Dataset {\n    Sequence {\n        Int32 i;\n    } s;\n} d;\nData:\n" ++
+          bytesStr [0x5a,0,0,0, 0,0,0,5, 0x5a,0,0,0, 0,0,0,6, 0xa5,0,0,0]))),
+       some (.ok .dods (.complete (cs!"Dataset {\n    Sequence {\n        String i;\n    } s;\n} d;\nData:\n" ++
+          bytesStr [0x5a,0,0,0, 0,0,0,2, 0x61,0x62,0,0, 0xa5,0,0,0]))),
+       some (.ok .ascii (.complete (cs!"Dataset {\n    Sequence {\n        Int32 i;\n    } s;\n} d;\n" ++ dashes ++ cs!"s.i\n6\n\n"))),
+       none,
+       some (.errdoc (-1))] := by
+  decide +kernel
+
 end Pydap.C15
